@@ -2252,8 +2252,10 @@ func (t *treasure) Uint32SliceDelete(values []uint32) error {
 				break
 			}
 		}
-		if !shouldDelete {
+		if shouldDelete {
+			// the content changes exactly when an element is removed
 			t.contentChanged = true
+		} else {
 			newSlice = append(newSlice, (*t.treasure.Content.Uint32Slice)[i:i+4]...)
 		}
 	}
